@@ -29,6 +29,7 @@ func init() {
 			n += len(st)
 		}
 		for _, it := range []struct{ lean, fn string }{
+			{"isValid", "rawRequest.IsValid"},
 			{"rawSetResponse", "rawRequest.SetResponse"},
 			{"simpleSetResponse", "simpleRequest.SetResponse"},
 			{"msetChildDone", "msetRequest.onChildDone"},
